@@ -270,6 +270,64 @@ theorem trans_shape (O N : Nat) (src : Nat → Nat → R) (T : Mat R) :
   exact loop_mupd_shape N (fun n _ => n) (fun _ _ => o) (fun n _ => src o n) T
 
 omit [CommRing R] in
+/-- the same nest with the loops exchanged: `for o < O: for n < N: T[o][n] = src o n` -/
+theorem trans_nest' (O N : Nat) (src : Nat → Nat → R) (T : Mat R) (a b : Nat) :
+    (forN O (fun o T => forN N (fun n T => T.upd o n (src o n)) T) T).e a b
+      = if a < O ∧ b < N then src a b else T.e a b := by
+  have inner : ∀ (o N : Nat) (T : Mat R) (a b : Nat),
+      (forN N (fun n T => T.upd o n (src o n)) T).e a b = if a = o ∧ b < N then src o b else T.e a b := by
+    intro o N T a b
+    induction N with
+    | zero => simp
+    | succ N ih =>
+      rw [forN_succ, Mat.upd_e]
+      by_cases hb : b = N
+      · subst hb
+        by_cases ha : a = o <;> simp [ha, ih]
+      · have h1 : (b < N + 1) = (b < N) := by apply propext; omega
+        simp [hb, ih, h1]
+  induction O with
+  | zero => simp
+  | succ O ih =>
+    rw [forN_succ, inner]
+    by_cases ha : a = O
+    · subst ha
+      by_cases hb : b < N <;> simp [hb, ih]
+    · have h1 : (a < O + 1) = (a < O) := by apply propext; omega
+      simp [ha, ih, h1]
+
+omit [CommRing R] in
+theorem trans_shape' (O N : Nat) (src : Nat → Nat → R) (T : Mat R) :
+    (forN O (fun o T => forN N (fun n T => T.upd o n (src o n)) T) T).rows = T.rows
+    ∧ (forN O (fun o T => forN N (fun n T => T.upd o n (src o n)) T) T).cols = T.cols := by
+  apply loop_shape
+  intro o T
+  exact loop_mupd_shape N (fun _ _ => o) (fun n _ => n) (fun n _ => src o n) T
+
+/-- the two ways to write the transposition nest `AT[j][i] = (*this)[i][j]`: rows in the outer or in the inner loop -/
+def TransSig.rowsOuter : TransSig :=
+  { extO := .rows, extI := .cols, tr := .inner, tc := .outer, sr := .outer, sc := .inner }
+def TransSig.colsOuter : TransSig :=
+  { extO := .cols, extI := .rows, tr := .outer, tc := .inner, sr := .inner, sc := .outer }
+
+omit [CommRing R] in
+/-- every transposition nest of one of the two shapes writes `T[i][j] = A[j][i]` for `i < cols`, `j < rows` -/
+theorem transSem_spec (s : TransSig) (hs : s = TransSig.rowsOuter ∨ s = TransSig.colsOuter) (A T : Mat R) (i j : Nat) :
+    (transSem s A T).e i j = (if i < A.cols ∧ j < A.rows then A.e j i else T.e i j)
+    ∧ (transSem s A T).rows = T.rows ∧ (transSem s A T).cols = T.cols := by
+  rcases hs with rfl | rfl
+  · have h := trans_nest A.rows A.cols (fun o n => A.e o n) T i j
+    have hh := trans_shape A.rows A.cols (fun o n => A.e o n) T
+    exact ⟨by simpa [transSem, TransSig.rowsOuter, bound, sel] using h,
+           by simpa [transSem, TransSig.rowsOuter, bound, sel] using hh.1,
+           by simpa [transSem, TransSig.rowsOuter, bound, sel] using hh.2⟩
+  · have h := trans_nest' A.cols A.rows (fun o n => A.e n o) T i j
+    have hh := trans_shape' A.cols A.rows (fun o n => A.e n o) T
+    exact ⟨by simpa [transSem, TransSig.colsOuter, bound, sel] using h,
+           by simpa [transSem, TransSig.colsOuter, bound, sel] using hh.1,
+           by simpa [transSem, TransSig.colsOuter, bound, sel] using hh.2⟩
+
+omit [CommRing R] in
 /-- `dense = 0; for i < n: dense[i][i] = d i` -/
 theorem diag_assign_loop [Zero R] (n : Nat) (d : Nat → R) (T : Mat R) (a b : Nat) :
     (forN n (fun i (M : Mat R) => M.upd i i (d i)) T).e a b = if a = b ∧ a < n then d a else T.e a b := by
